@@ -25,6 +25,13 @@ type stats struct {
 	// 2*RetryMaxDelay) for at least longStreak, or under a configured
 	// RetryBaseDelay of at least longStreak.
 	lateRetries int
+	// non-trivial rule of the real part (real_run.go): a dial function that did not
+	// answer at once AND (a dial ended by the manager's dial deadline OR a generated
+	// Remove / Reconnect / Add landing while a Connection call of its target is
+	// outstanding).
+	realBlockedDials int
+	realDeadlineEnds int
+	realOpDuringDial int
 }
 
 // longStreak is what the long part calls a long time (labels and its
